@@ -33,10 +33,22 @@ def ncases(tier):
 
 def run_case(ctx, i, rng):
     from vlib.e1 import scripts
-    feat = wfgen.Features(retries=rng.random() < 0.4)
+    feat = wfgen.Features(retries=rng.random() < 0.4,
+                          # (tasks with future triggers make pool additions
+                          # recompute the runahead offset from the task list)
+                          future_offsets=rng.random() < 0.4,
+                          mixed_parent_sections=rng.random() < 0.3)
     def script_fn(rng, case):
-        return scripts.random_script(rng, case, kinds=[
+        extra = []
+        if rng.random() < 0.3:
+            # remove whatever is runahead-limited at that moment: the
+            # removal itself spawns the next parentless instance
+            extra = [{'at': rng.randint(2, 20), 'cmd': 'remove_tasks',
+                      'args': {'tasks': ['@runahead'], 'flow': []}}
+                     for _ in range(rng.choice([1, 2]))]
+        return sorted(extra + scripts.random_script(rng, case, kinds=[
             'hold', 'release', 'trigger', 'set', 'remove', 'pause', 'poll',
-            'kill', 'hold_point', 'reload', 'stop_flow', 'stop_flow'])
+            'kill', 'hold_point', 'reload', 'stop_flow', 'stop_flow']),
+            key=lambda a: a['at'])
     simple_case(ctx, i, rng, PID, feat, plan_class='mixed', hostile=0.5,
                 script_fn=script_fn)
